@@ -17,6 +17,7 @@ WHAT = {
     "C14:unmap-while-user-thread-inside-flush": "Close racing Flush: the posted cleanup sets queueManager = nil / unmaps while a user thread is past Flush's state check; the process crashes",
     "C14:write-after-cleanup-touches-unmapped-memory": "a later call on a stream of a closed and cleaned-up session (BufferWriter().WriteBytes) allocates from the unmapped buffer manager: SIGSEGV instead of an error",
     "C14:openstream-racing-close-panics-on-nil-stream-map": "Session.OpenStream passed its IsClosed check before the session died and took streamLock after the posted cleanup had set s.streams = nil: panic 'assignment to entry in nil map' on a user goroutine (process crash caused by a concurrent Close / peer death)",
+    "C14:flush-parked-at-session-death-loses-slices": "Flushes were waiting in the queue-full retry loop when their session was closed / its peer died; after the cleanup the slices of their outgoing chains are missing from the free lists of the buffer manager shared with a live sibling session",
     "C14:dead-session-keeps-shared-buffer-slices": "after the cleanup of a session whose connection broke, slices its streams held (unread received data, written-but-unflushed data) are missing from the free lists of the buffer manager it shared with a live sibling session",
     "C14:survivor-not-closed-after-peer-death": "the peer died / the socket was severed but the surviving session did not become closed within the bound",
     "C14:pending-call-hangs-after-session-closed": "a call that was pending when the session died has not returned",
@@ -100,6 +101,8 @@ def check(run):
         kinds[c["kind"]] = kinds.get(c["kind"], 0) + 1
         for f in set(c.get("feat") or []):
             feats[f] = feats.get(f, 0) + 1
+        if c["kind"] == "source" and c.get("err"):
+            run.add_corr_break("G: stream.go Flush no longer has the modelled shape: " + c["err"], brief(c))
         if c["kind"] == "broken":
             run.add_corr_break("T: scenario %s could not be set up: %s" % (c.get("name"), c.get("err")), brief(c))
         for m in c.get("oracle") or []:
